@@ -742,6 +742,81 @@ func runC15(c *Ctx) {
 	if nGo != 1 {
 		o.Fail(run.Pos(), "run must be started exactly once by the constructor")
 	}
+	// R9 tokens are topped up before an arrival is served: on every path of run from the receipt of a chunk to the
+	// first drain, the elapsed time since the last refill has been compared with the minimum refill interval (a
+	// refill that is only done once the bucket runs short keeps the idle time as credit: after the burst has left, a
+	// second burst's worth of tokens is granted at once)
+	if drain != nil {
+		o9 := c.Obl("R9", fname(run), "every drain that serves an arrival comes after the refill decision (elapsed time since the last refill compared with the minimum refill interval): idle time is turned into tokens, capped at the burst, before datagrams leave - not afterwards", 1)
+		rpaths, okR := enumIterPathsU(run, 50000)
+		if !okR {
+			o9.Undecide("the paths of run could not be enumerated")
+		}
+		isRefillCmp := func(pt *upath, in ssa.Instruction, idx int) bool {
+			b, ok := in.(*ssa.BinOp)
+			if !ok {
+				return false
+			}
+			switch b.Op {
+			case token.LSS, token.LEQ, token.GTR, token.GEQ:
+			default:
+				return false
+			}
+			hasElapsed, hasMin := false, false
+			for _, sd := range []ssa.Value{b.X, b.Y} {
+				v := strip(pt.valueAt(sd, idx))
+				if cl, ok := v.(*ssa.Call); ok {
+					switch callName(cl) {
+					case "time.Since", "(time.Time).Sub":
+						hasElapsed = true
+					}
+				}
+				if fr, ok := asFieldLoad(v); ok && fr.SName == T && v.Type().String() == "time.Duration" {
+					hasMin = true
+				}
+			}
+			return hasElapsed && hasMin
+		}
+		failed9 := map[ssa.Instruction]bool{}
+		nServed := 0
+		for pi := range rpaths {
+			pt := &rpaths[pi]
+			arrived, decided := false, false
+			for idx, in := range pt.Instrs {
+				if sel, ok := in.(*ssa.Select); ok {
+					k := selCaseOnPathAt(pt, sel, idx)
+					if k >= 0 && k < len(sel.States) && sel.States[k].Dir == types.RecvOnly {
+						if ch, isCh := sel.States[k].Chan.Type().Underlying().(*types.Chan); isCh {
+							if _, isIface := ch.Elem().Underlying().(*types.Interface); isIface {
+								arrived, decided = true, false
+							}
+						}
+					}
+					continue
+				}
+				if !arrived {
+					continue
+				}
+				if isRefillCmp(pt, in, idx) {
+					decided = true
+				}
+				if cl, ok := in.(*ssa.Call); ok && cl.Call.StaticCallee() == drain {
+					nServed++
+					if !decided && !failed9[in] {
+						failed9[in] = true
+						o9.Fail(in.Pos(), "the queue is drained for an arrival before the refill decision was taken: idle time is credited after the burst has left (up to two bursts back to back)")
+					}
+					if decided {
+						o9.Site(in.Pos(), "drain after the refill decision")
+					}
+					break
+				}
+			}
+		}
+		if nServed == 0 && okR {
+			o9.Undecide("no path of run serves an arrival by a drain")
+		}
+	}
 	fifoShape(c, "R5")
 	peekBelief(c, "R6", 5)
 
@@ -1197,13 +1272,28 @@ func runC14(c *Ctx) {
 	// the notification (an arrival that is queued silently waits for the fallback timer when the loop has just
 	// emptied the queue)
 	for _, ps := range pushes {
+		// the capacity of the notification channel as the constructor makes it (0: the loop must be there to take it)
+		pushCap := int64(0)
+		if nf := p.Func("vnet", "", "NewDelayFilter"); nf != nil {
+			instrsOfU(nf, func(in ssa.Instruction) {
+				if mk, ok := in.(*ssa.MakeChan); ok {
+					if s, isS := mk.Type().Underlying().(*types.Chan).Elem().Underlying().(*types.Struct); isS && s.NumFields() == 0 {
+						if k, isC := constInt(mk.Size); isC {
+							pushCap = k
+						}
+					}
+				}
+			})
+		}
 		isNotify := func(in ssa.Instruction) bool {
 			switch x := in.(type) {
 			case *ssa.Send:
 				return true
 			case *ssa.Select:
 				for _, st := range x.States {
-					if st.Dir == types.SendOnly {
+					// a send that may be skipped (select with default) announces the arrival only if the channel
+					// can hold the token while the loop is busy
+					if st.Dir == types.SendOnly && (x.Blocking || pushCap >= 1) {
 						return true
 					}
 				}
